@@ -163,7 +163,12 @@ def gen_instance(rnd, family):
             # custom standalone buffers (first = input, second = output by position)
             feats.add("custom_buffers")
             bn = ["b-0", "b-1", "b-2"]
-            if rnd.random() < 0.5:
+            r_names = rnd.random()
+            if r_names < 0.15:
+                # numbered from one, or from some other start: consecutive numbers the compiler's counter runs into
+                k0 = rnd.choice([1, 1, 2, 3 * nm - 1, 3 * nm + 1])
+                bn = [f"b-{k0 + k}" for k in range(3)]
+            elif r_names < 0.55:
                 # custom names anywhere in the id range the compiler also allocates from
                 bn = [f"b-{k}" for k in rnd.sample(range(0, 3 * nm + 6), 3)]
             ib = {"name": bn[0], "type": rnd.choice(BUF_TYPES), "role": "input", "description": "in"}
@@ -178,7 +183,7 @@ def gen_instance(rnd, family):
             ic["buffer"] = bl
             meta["ordered_standalone"] = ib["type"] != "flex"
 
-    if want("setup", 0.95, 0.1):
+    if want("setup", 0.95, 0.1) or (family == "bigids" and rnd.random() < 0.5):
         feats.add("setup")
         ntools = rnd.randint(2, 3)
         tools = [f"tl-{i}" for i in range(ntools)]
@@ -321,6 +326,23 @@ def spread_placement(sc, rnd):
     if not init:
         doc.pop("init_state", None)
     sc["meta"]["features"] = sorted(set(feats) | {"spread_placement"})
+    sc["dsl"] = yaml.safe_dump(doc, sort_keys=False)
+    return True
+
+
+def one_based_buffers(sc, rnd):
+    """the stand-alone buffers named by the user with consecutive numbers that do not start at 0
+    (b-1 input, b-2 output): the compiler's own counter must step around them"""
+    doc = sc["doc"]
+    ic = doc.get("instance_config", {})
+    if "buffer" in ic or "alpha_buffer_names" in sc["meta"].get("features", []):
+        return False
+    k0 = rnd.choice([1, 1, 1, 2])
+    ic["buffer"] = [{"name": f"b-{k0}", "type": "flex", "role": "input", "description": "in"},
+                    {"name": f"b-{k0 + 1}", "type": "flex", "role": "output", "description": "out"}]
+    sc["meta"]["ordered_standalone"] = False
+    sc["meta"]["features"] = sorted(set(sc["meta"].get("features", [])) | {"custom_buffers", "one_based_buffers"})
+    sc["meta"]["classic_instance"] = False
     sc["dsl"] = yaml.safe_dump(doc, sort_keys=False)
     return True
 
@@ -531,6 +553,7 @@ def gen_malformed(seed, kind=None):
         break
     else:
         return None
+    original = yaml.safe_dump(doc, sort_keys=False)
     doc = copy.deepcopy(doc)
     ic = doc["instance_config"]
     inst = ic["instance"]
@@ -626,6 +649,8 @@ def gen_malformed(seed, kind=None):
         del inst["specification"]
     elif kind == "no-instance-config":
         doc = {"title": "InstanceConfig"}
+    if yaml.safe_dump(doc, sort_keys=False) == original:
+        return None     # the defect did not apply to this document (e.g. no `out-buf` to rename): nothing malformed to probe
     return {"id": f"malformed-{kind}-{seed}", "family": "malformed", "malformed": kind, "seed": 0,
             "dsl": yaml.safe_dump(doc, sort_keys=False), "cfg": gen_cfg(rnd, meta), "policy": {"kind": "accept", "seed": 0},
             "probes": {}, "meta": {"family": "malformed"}}
